@@ -62,7 +62,9 @@ Section FStep.
   | FRS s l s' : freachable ops s -> fstep s l = Some s' -> freachable ops s'.
 End FStep.
 
+(* work left: take = 1, each block = 1, finalise = 1 *)
+Definition fop_cost (o : bop) : nat := match o with OCopy js => 2 + length js | OInline => 1 end.
 Definition fmeasure (s : fst_) : nat :=
-  fold_right (fun o a => 1 + op_cost o + a) 0 (f_todo s) + (if f_wdone s then 0 else 1) +
-  fold_right (fun ho a => op_cost (snd ho) + a) 0 (f_fq s) +
+  fold_right (fun o a => 1 + fop_cost o + a) 0 (f_todo s) + (if f_wdone s then 0 else 1) +
+  fold_right (fun ho a => fop_cost (snd ho) + a) 0 (f_fq s) +
   fold_right (fun hj a => 1 + length (snd hj) + a) 0 (f_run s).
